@@ -496,7 +496,7 @@ def rf32(run):
     codes = dict(gen.enum('MIR_insn_code_t'))
     calls = ['MIR_CALL', 'MIR_INLINE', 'MIR_JCALL']
     with_out = calls + ['MIR_VA_ARG', 'MIR_BSTART']
-    fixed = calls + ['MIR_ALLOCA', 'MIR_BSTART', 'MIR_BEND', 'MIR_VA_START', 'MIR_VA_ARG', 'MIR_VA_END']
+    fixed = calls + ['MIR_ALLOCA', 'MIR_BSTART', 'MIR_BEND', 'MIR_VA_START', 'MIR_VA_ARG', 'MIR_VA_BLOCK_ARG', 'MIR_VA_END']   # VA_BLOCK_ARG: D98
     hoist = fixed + ['MIR_VA_BLOCK_ARG', 'MIR_DIV', 'MIR_DIVS', 'MIR_UDIV', 'MIR_UDIVS', 'MIR_MOD', 'MIR_MODS', 'MIR_UMOD', 'MIR_UMODS', 'MIR_RET', 'MIR_JRET']
     # overflow-flag producers stay next to the branch that reads their flags
     uni_ = frozenset(v for nm, v in gen.enum('MIR_insn_code_t'))
